@@ -1,16 +1,28 @@
 ------------------------------ MODULE Importer ------------------------------
-(* Bank importers (property C13) over abstract statements.  A statement is a     *)
-(* sequence of booking rows [z, amt, fee, cur]: date, signed effect on the        *)
-(* import account (at scale 100), fee (formats that carry one) and currency,      *)
-(* plus optionally balances [z, cur, bal] the statement itself carries.           *)
-(* The importer must emit exactly one transaction per row, dated at the row's     *)
-(* date, whose effect on the import account is amt - fee in cur; nothing else     *)
-(* but the assertions / prices carried by the statement.                          *)
+(* Bank, broker and price importers (property C13) over abstract statements.      *)
+(* A statement is a sequence of booking rows [z, amt, fee, cur, extra]: date,      *)
+(* signed amount on the import account (scale 100), fee (formats that carry one), *)
+(* currency, and - for brokerage rows - further effects [c, v] on the import       *)
+(* account (the securities bought or sold, the other leg of a conversion, a        *)
+(* commission in the base currency); plus optionally balances [z, cur, bal] and    *)
+(* prices [z, p, c, t] the statement itself carries.                               *)
+(* The importer must emit exactly one transaction per row, dated at the row's      *)
+(* date, whose effect on the import account is amt - fee in cur (and the extra     *)
+(* effects, merged per commodity); nothing else but the assertions / prices        *)
+(* carried by the statement.                                                       *)
 EXTENDS Integers, Sequences, FiniteSets
 BagOfSeq(sq) == [x \in {sq[n] : n \in 1..Len(sq)} |-> Cardinality({n \in 1..Len(sq) : sq[n] = x})]
-Expected(rows) == [n \in 1..Len(rows) |-> [z |-> rows[n].z, cur |-> rows[n].cur, eff |-> rows[n].amt - rows[n].fee]]
-Faithful(rows, trx) == BagOfSeq(Expected(rows)) = BagOfSeq(trx)
-\* assertions: at most one per (date, currency) carried by the statement, with the carried value
+RECURSIVE ExtraSum(_, _, _)
+ExtraSum(extra, c, n) == IF n = 0 THEN 0 ELSE (IF extra[n].c = c THEN extra[n].v ELSE 0) + ExtraSum(extra, c, n - 1)
+Eff(row, c) == (IF c = row.cur THEN row.amt - row.fee ELSE 0) + ExtraSum(row.extra, c, Len(row.extra))
+Effs(row) == LET cs == {row.cur} \cup {row.extra[n].c : n \in 1..Len(row.extra)}
+             IN {e \in {[c |-> c, v |-> Eff(row, c)] : c \in cs} : e.v # 0}
+Expected(rows) == [n \in 1..Len(rows) |-> [z |-> rows[n].z, effs |-> Effs(rows[n])]]
+Observed(trx) == [n \in 1..Len(trx) |-> [z |-> trx[n].z, effs |-> {trx[n].effs[k] : k \in 1..Len(trx[n].effs)}]]
+Faithful(rows, trx) == BagOfSeq(Expected(rows)) = BagOfSeq(Observed(trx))
+\* assertions: at most one per (date, commodity) carried by the statement, with the carried value
 AssertionsCarried(bals, asserts) ==
   \A n \in 1..Len(asserts) : \E m \in 1..Len(bals) : bals[m] = asserts[n]
+\* prices: exactly the ones the statement carries
+PricesCarried(prices, obs) == BagOfSeq(prices) = BagOfSeq(obs)
 =============================================================================
